@@ -18,9 +18,10 @@ const b64 = s => Buffer.from(s).toString('base64')
 const MAPS = [G.VALID_MAP, JSON.stringify({ version: 3, sources: ['a.ts', 'b.ts'], names: ['x', 'y'], mappings: 'AAAAA,CAACC;ACAD;AAAA' })]
 
 function genRequest (rng, files) {
-  const kind = rng.weighted([[3, 'corpus'], [3, 'catalog'], [3, 'random'], [2, 'mutated'], [2, 'multi-map-comments'], [1.5, 'many-literals'], [1, 'notmodified'], [1, 'collision']])
+  const kind = rng.weighted([[3, 'corpus'], [3, 'catalog'], [3, 'random'], [2, 'mutated'], [2, 'multi-map-comments'], [2.5, 'same-relative-map-url'], [1.5, 'many-literals'], [1, 'notmodified'], [1, 'collision']])
   let code; let reader
   let file = '/srv/app/lib/m' + rng.int(6) + '.js'
+  if (rng.bool(0.3)) file = `/srv/app/${rng.pick(['a', 'b', 'c/d'])}/m${rng.int(3)}.js`
   if (kind === 'corpus') { const f = rng.pick(files); code = corpus.read(f.name); if (code.length > 30000) code = code.slice(0, 30000) } else if (kind === 'catalog') { const pairs = cat.allPairs(); const [p, f] = pairs[rng.int(pairs.length)]; code = cat.build(p, f, { strict: rng.bool() }).code } else if (kind === 'random') code = genProgram(rng.fork('g'), { maxStmts: 20 }).code
   else if (kind === 'mutated') code = G.mutate(genProgram(rng.fork('g'), { maxStmts: 12 }).code, rng)
   else if (kind === 'multi-map-comments') {
@@ -34,6 +35,15 @@ function genRequest (rng, files) {
       if (style === 0) code += `//# sourceMappingURL=data:application/json;base64,${b64(m)}\n`
       else if (style === 1) { code += `//# sourceMappingURL=m${i}.map\n`; files2['/srv/app/lib/m' + i + '.map'] = { content: m } } else { code += `function g${i}(x) { return x + ${i} } //# sourceMappingURL=m${i}.map\n`; files2['/srv/app/lib/m' + i + '.map'] = rng.bool() ? { content: m } : { err: 'NotFound' } }
     }
+    reader = { files: files2, parent: 'node' }
+  } else if (kind === 'same-relative-map-url') {
+    // the usual layout: every folder has its own index.js + index.js.map; the URL text is identical, the maps are not
+    const folder = rng.pick(['billing', 'users', 'users/admin', 'orders', 'x/y/z'])
+    file = `/srv/app/${folder}/index.js`
+    code = `function h_${folder.replace(/\W/g, '_')}(a, b) { return a + b.trim() }\n//# sourceMappingURL=index.js.map\n`
+    const map = JSON.stringify({ version: 3, sources: [folder.replace(/\W/g, '_') + '.ts'], names: [], mappings: 'AAAA,SAAS,EAAE' })
+    const files2 = {}
+    files2[`/srv/app/${folder}/index.js.map`] = rng.bool(0.85) ? { content: map } : { err: 'NotFound' }
     reader = { files: files2, parent: 'node' }
   } else if (kind === 'many-literals') {
     code = 'function lits(a) {\n' + Array.from({ length: rng.range(20, 60) }, (_, i) => `  const l${i} = ${rng.bool(0.3) ? "'shared literal value'" : `'literal number ${i} long enough'`}; a += l${i};`).join('\n') + '\n  return a\n}\n'
